@@ -281,8 +281,8 @@ mod imp {
         let mut k = 0u64;
         let mut targets: Vec<usize> = (246..=262).collect();
         if cfg!(miri) {
-            // 64 KiB containers cost minutes each under the interpreter: only the two sizes around the 2-byte/4-byte switch
-            targets.extend([65534usize, 65536]);
+            // 64 KiB containers cost tens of minutes each under the interpreter (12 encodings per case): the 2-byte/4-byte switch is
+            // left to the native layers, the 1-byte/2-byte switch stays
         } else {
             targets.extend(65520..=65542);
         }
